@@ -625,7 +625,8 @@ Theorem C18_metropolis_2d_average_is_probability PDF s1 s2 sample thin burn doma
 Proof. exact (metropolis_2d_average_is_probability PDF s1 s2 sample thin burn domain us l av w r). Qed.
 Print Assumptions C18_metropolis_2d_average_is_probability.
 Example C18_metropolis_average_ex :
-  sample_metropolis_w ROps (fun _ => 1) 1 1 1 0 [0; 1] [/2; /2; /2] = Ok ([/2], (1, true), []) /\ (0 < metro_imax 0 1 1)%Z.
+  (forall z : R, 0 <= (fun _ : R => 1) z) /\ (0 < metro_imax 0 1 1)%Z /\
+  exists l av w, sample_metropolis_w ROps (fun _ => 1) 1 1 1 0 [0; 1] [/2; 0; /2] = Ok (l, (av, w), []).
 Proof. exact metropolis_average_ex. Qed.
 
 (** ** "all generator seeds and states ... equal generator states give identical outputs and leave equal states behind": the generator itself
